@@ -8,7 +8,6 @@ NOTES = {
     "C07-2": "behaviour-preserving on the current tree: since fix F-07a (copy-on-write of shared sub-circuit templates in add_node_template) the shared sub-circuits this change introduces can no longer be altered through update_var; the demonstration passes on the patched current tree",
     "C13-1": "behaviour-preserving on the current tree: since fix F-13a every translation starts from empty operator/IR caches, so it no longer matters which branch of clear_frontend_caches clears OperatorTemplate.cache; the demonstration passes on the patched current tree",
     "C14-1": "behaviour-preserving on the current tree: since fix F-07c OperatorGraphTemplate.apply no longer writes values into the template's variations, so sharing the EdgeTemplate between a circuit and its deep copy leaks nothing; the demonstration passes on the patched current tree",
-    "C16-1": "not detectable: two Connectivity objects with coupling edges into one target variable already fail on the clean tree (listed findings F-16b/F-16h), so the generator excludes the shape the change needs",
     "C06-1": "also caught by C07 (update_var on shared templates)",
     "C17-2": "also caught by C07 (update_var on shared templates)",
     "C14-2": "caught by C15 (derivation with dictionary-form declarations must leave the base template unchanged)",
